@@ -2,6 +2,7 @@ import GaeaVerif.Sexp
 import GaeaVerif.Model.Merge
 import GaeaVerif.Model.MergeClass
 import GaeaVerif.Model.MergeUnion
+import GaeaVerif.Model.MergeJoin
 import GaeaVerif.Model.Route
 import GaeaVerif.Drv.C01
 import GaeaVerif.Drv.C05
@@ -9,6 +10,8 @@ import GaeaVerif.Drv.C05
   Driver for C02.
     m (sel RULE META QUERY COND (rows (PLACE k o a s t d)…))   → (ok NCOLS SEG…) | err | panic | unsupported
     m (union RULE META ((QUERY COND)…) (ALL…) UORDER ULIMIT (rows …))   → the same
+    m (join JRULE META (j KIND WSIDE ONO TQ) QUERY COND (rows …) (rrows …))  → the same (statement over a JOIN b,
+      columns 0…5 of the left and 6…11 of the right table; PLACE -1: a row of a global table)
     s <request> <implementation output>                      → property oracle
   SEG: (run ROW…) the rows of a tie class of the ORDER BY key, sorted by their text;
        (cut N) N rows of a tie class that LIMIT cuts and whose rows differ;
@@ -133,6 +136,7 @@ def canon (out : List Row) (ref : List OutRow) (lim : Option (Nat × Nat)) : Lis
   canonLoop out ref 0 lo hi []
 
 structure Case where
+  schema : List Ty
   q : Query
   cq : CQ
   tables : List (List Row)     -- the routed sub-tables' rows that satisfy WHERE, in sub-table order
@@ -171,8 +175,55 @@ def mkCase (r : Rule) (qs cond : Sexp) (rows : List InRow) : Option (Option Case
         let tables := match routed with
           | none => []
           | some is => (is.foldr insertSorted []).map fun i => (matching.filter (·.place == i)).map (·.row)
-        some (some { q := q, cq := cq, tables := tables, routeErr := routed.isNone, all := all,
+        some (some { schema := schema, q := q, cq := cq, tables := tables, routeErr := routed.isNone, all := all,
                      ref := evalSorted cq all })
+
+def schema2 : List Ty := schema ++ schema
+
+def parseRRows : Sexp → Option (List InRow)
+  | .list (.atom "rrows" :: rs) => parseRows (.list (.atom "rows" :: rs))
+  | _ => none
+
+/-- a statement over `a JOIN b`: sub-table `i` answers it on (rows of `a` in `i`) ⋈ (rows of `b` in `i`,
+    or the global table); the reference is the statement on (all rows of `a`) ⋈ (all rows of `b`) -/
+def mkJoinCase (r : Rule) (spec qs cond : Sexp) (lrows rrows : List InRow) : Option (Option Case) :=
+  match spec, parseQuery qs with
+  | .list [.atom "j", k, ws, ono, _], some q0 =>
+    let kind? : Option JoinKind := match k with
+      | .atom "inner" => some .inner
+      | .atom "left" => some .left
+      | _ => none
+    let condTab : Option (Option (Cond × C05.OtherTab)) :=
+      match cond with
+      | .atom "none" => some none
+      | c => (C05.parseCondN c []).map some
+    match kind?, ws.asNat?, ono.asBool?, condTab with
+    | some kind, some wside, some withO, some ct =>
+      let q : Query := { q0 with qualified := true }
+      let sat (x : InRow) : Bool :=
+        match ct with
+        | none => true
+        | some (c, tab) => eval (C05.rowEnv tab x.k x.o) x.k c == some true
+      let keep (rows : List InRow) := rows.filter fun x => x.place == -1 || r.idxs.contains x.place
+      let Ls := if wside = 0 then (keep lrows).filter sat else keep lrows
+      let Rs := if wside = 1 then (keep rrows).filter sat else keep rrows
+      let rowsAt (rows : List InRow) (p : Int) : List Row :=
+        (rows.filter fun x => x.place == p || x.place == -1).map (·.row)
+      let inOrder (rows : List InRow) : List Row :=
+        ((rows.map (·.place)).foldr insertSorted []).flatMap fun p => (rows.filter (·.place == p)).map (·.row)
+      let on := joinOn withO
+      let all := joinRows kind on schema.length (inOrder Ls) (inOrder Rs)
+      match compile schema2 q with
+      | none => some none
+      | some cq =>
+        let routed := routeStmt r (ct.map (·.1))
+        let tables := match routed with
+          | none => []
+          | some is => (is.foldr insertSorted []).map fun i => joinRows kind on schema.length (rowsAt Ls i) (rowsAt Rs i)
+        some (some { schema := schema2, q := q, cq := cq, tables := tables, routeErr := routed.isNone, all := all,
+                     ref := evalSorted cq all })
+    | _, _, _, _ => none
+  | _, _ => none
 
 def parseCase (req : Sexp) : Option (Option Case) :=
   match req with
@@ -180,11 +231,15 @@ def parseCase (req : Sexp) : Option (Option Case) :=
     match C01.parseRule mt, parseRows rows with
     | some r, some rows => mkCase r qs cond rows
     | _, _ => none
+  | .list [.atom "join", _, mt, spec, qs, cond, rows, rrows] =>
+    match C01.parseRule mt, parseRows rows, parseRRows rrows with
+    | some r, some lrows, some rrows => mkJoinCase r spec qs cond lrows rrows
+    | _, _, _ => none
   | _ => none
 
 def model (c : Case) : String :=
   if c.routeErr then "err" else
-  match executeIn schema c.q c.tables with
+  match executeIn c.schema c.q c.tables with
   | .ok r => "(ok " ++ toString r.nfields ++ String.join ((canon r.rows c.ref c.cq.limit).map (" " ++ ·)) ++ ")"
   | .fail => "err"
   | .panic => "panic"
@@ -204,6 +259,10 @@ def isDec : Val → Bool
 def oracleOf (ref : List OutRow) (lim : Option (Nat × Nat)) (out : Sexp) : String :=
   match out with
   | .atom "err" => "ok"
+  -- a backend rejected a rewritten statement: the client gets an error
+  | .list [.atom "executor-error", _] => "ok"
+  -- the generated text is not a statement
+  | .list [.atom "parse-error", _] => "ok"
   | .atom "panic" =>
     if ref.any (fun r => r.key.any isDec) then "ok" else "viol unexpected-panic"
   | .list (.atom "ok" :: _ :: segs) =>
@@ -300,17 +359,26 @@ def umodel (u : UCase) : String :=
 
 /-- is the case inside the class of `C02_select_correct_partial`? (evidence only) -/
 def classify (c : Case) : String :=
-  let shape := if c.tables.length = 1 then "one-table" else if c.tables.length = 0 then "no-table" else "several-tables"
+  let kind := if c.q.qualified then "join " else ""
+  let shape := kind ++ (if c.tables.length = 1 then "one-table" else if c.tables.length = 0 then "no-table" else "several-tables")
   match rewrite c.q with
   | .ok p =>
-    match compile schema p.shardQ with
+    match compile c.schema p.shardQ with
     | some cq' =>
-      if !planOK schema p c.cq cq' then "outside-plan-invariant " ++ shape
+      if !planOK c.schema p c.cq cq' then "outside-plan-invariant " ++ shape
       else if !classOK p c.cq cq' then
-        (if c.cq.distinct then "outside-distinct " else if c.cq.group.isSome then "outside-group-limit-pushed " else "outside-shape ") ++ shape
+        (if c.cq.distinct then (if c.cq.group.isSome then "outside-distinct-group-unselected-order " else "outside-distinct-unselected-order ")
+         else if c.cq.group.isSome then "outside-group-limit-pushed " else "outside-shape ") ++ shape
       else "proved " ++ shape
     | none => "outside-shard-statement-rejected " ++ shape
   | _ => "proved-rejected-by-planner " ++ shape
+
+/-- is the UNION inside the class of `union_correct`: every SELECT of the proved class, and
+    without `*` when it is routed to no sub-table -/
+def classifyU (u : UCase) : String :=
+  if u.sels.all (fun c => Supported c.schema c.q &&
+      (!c.tables.isEmpty || c.q.fields.all (fun f => f.expr != .star))) then "proved union"
+  else "outside union"
 
 def isUnion : Sexp → Bool
   | .list (.atom "union" :: _) => true
@@ -319,7 +387,11 @@ def isUnion : Sexp → Bool
 def handle (args : List Sexp) : String :=
   match args with
   | [.atom "k", req] =>
-    if isUnion req then "union (correspondence only)" else
+    if isUnion req then
+      match parseUCase req with
+      | some (some u) => classifyU u
+      | _ => "unsupported"
+    else
     match parseCase req with
     | some (some c) => classify c
     | _ => "unsupported"
